@@ -109,6 +109,26 @@ CHECKS = {
                      '1000, 2000 strings, one 65533-octet string) on exact-extent regions with symbolic bytes; unpack with requested counts '
                      'k-1, k, k+2, with and without destinations; results must equal the reference packing and no access may leave the '
                      'recorded length or the destinations.', ref='4.10', note=TB + '; bounded in list length and string lengths'),
+
+    'C18': dict(cat='other', tech='wire-taint dataflow over SSA IR of the six listener programs (necessary conditions only)',
+                text='PARTIAL. The property as a whole (no memory error, bounded time and liveness for every datagram sequence in programs '
+                     'doing socket and timer I/O) is out of reach of a sound static argument here. Decided clauses K1-K5: receive length <= '
+                     'buffer size; constant-length copies stay inside their objects; a value read from the datagram (library getter on the '
+                     'receive buffer, direct load, decoder out-parameter) is dominated by a bounding comparison before it is used as copy '
+                     'length, object offset or VLA size; wire-stepped loops have a non-zero guard; no %s on receive-buffer bytes and no '
+                     'decoder result object with unset members. Breaking any clause breaks the property for some datagram; holding them does '
+                     'not establish the property. The 11 flows that violate the clauses today are listed as known findings (each class '
+                     'replayed under ASan, replays/c18); any new flow is a violation.', ref='4.18', engine='taint',
+                note='trusted: clang-14 -O0 + opt-14 mem2reg, irparse.py, taint.py (field-insensitive objects, context-insensitive '
+                     'summaries, dominance-based guard recognition); library functions are recognised by name (Avtp_*/avtp_*)'),
+    'C19': dict(cat='proof', tech='abstract interpretation of talker builder + listener receive path with modelled I/O',
+                text='init_cf_pdu / prepare_acf_packet / update_cf_length of the talker and new_packet of the listener are interpreted by '
+                     'the bit-provenance engine over the IR of the example programs linked with the library; identifier (11/29 bits), RTR, '
+                     'BRS/ESI/FDF and all data octets stay symbolic, frame length (0..8 / 0..64), TSCF/NTSCF, UDP/raw and 1-3 frames per '
+                     'packet are enumerated (quick 260 scenarios, thorough 588). The frames handed to write() must equal the input frames '
+                     'bit for bit and the control header must announce exactly the ACF octets that follow.', ref='4.19',
+                note=TB + '; recv/write/clock_gettime/stdio are modelled in verif/checks/c19.py; the talker main() loop is mirrored by the '
+                     'analysis script rather than analysed; input frames are assumed well-formed (standard frame: no identifier bit above 10)'),
 }
 
 PENDING = ['C05', 'C06', 'C07', 'C08', 'C09', 'C10', 'C12', 'C13', 'C14', 'C15', 'C16', 'C17', 'C18', 'C19', 'C20']
@@ -149,6 +169,8 @@ def main():
                                'IR built from /repo by clang-14 on every run'},
             {'name': 'rules', 'path': 'verif/rules.py', 'serves_properties': sorted(p for p in CHECKS if CHECKS[p].get('engine') == 'rules'),
              'kind_free_text': 'structural dataflow rules (pointer provenance, alignment, effects, taint) over clang -O0 IR'},
+            {'name': 'taint', 'path': 'verif/taint.py', 'serves_properties': sorted(p for p in CHECKS if CHECKS[p].get('engine') == 'taint'),
+             'kind_free_text': 'wire-taint dataflow with dominance-based sanitiser recognition over mem2reg IR of the example programs'},
             {'name': 'witness', 'path': 'verif/checks/c20.py', 'serves_properties': sorted(p for p in CHECKS if CHECKS[p].get('engine') == 'witness'),
              'kind_free_text': 'generated translation units whose (non-)compilation with static assertions is the verdict'},
         ],
